@@ -82,7 +82,9 @@ FUNCTIONS = {
             ('configure_c03', 'runner.Runner.configure'),
             ('shuffle_c11', 'shuffle.Shuffle.__init__'), ('shuffle_c11', 'shuffle.Shuffle.global_setup')],   # same order in every mode
     'C06': [('runner_sched', 'runner.resume_tests'), ('runner_spawn', 'runner.spawn_layer_in_subprocess'),
-            ('process_c07', 'process.SubProcess.report')],      # sentence 1 composes the lossless transfer (C07)
+            ('process_c07', 'process.SubProcess.report'),       # sentence 1 composes the lossless transfer (C07)
+            # what of a child's stdout is kept for its block: everything but the keep-alive dot lines (regex lemma)
+            ('runner_sched', 'runner.DeferredSubprocessResult.write'), ('runner_sched', 'runner.KeepaliveSubprocessResult.write')],
     'C14': [('find_c14', f) for f in ('find.strip_py_ext', 'find.contains_init_py', 'find.find_test_files_',
                                       'find.find_test_files', 'find.find_suites', 'find.test_dirs',
                                       'options.get_options@prefix')]
